@@ -166,6 +166,10 @@ def run(ctx):
             # correspondence: reconstruct and provided-dialect split
             cmds.append(pyside.cmd_recon(mapping, d)); exp.append(pyside.impl_recon(mapping, d))
             tags.append(("_reconstruct", repr((mapping, d))))
+            # the remaining print settings: keep_order and sort_attribute_values (sorts the values as written)
+            for keep, srt in ((False, True), (True, True), (True, False)):
+                cmds.append(pyside.cmd_recon(mapping, d, keep, srt)); exp.append(pyside.impl_recon(mapping, d, keep, srt))
+                tags.append(("_reconstruct(keep_order=%r, sort_attribute_values=%r)" % (keep, srt), repr((mapping, d))))
             if line is not None:
                 a = line.split("\t")[8]
                 cmds.append(pyside.cmd_split(a, d)); exp.append(pyside.impl_split(a, d))
@@ -242,6 +246,23 @@ def run(ctx):
             res.oracle_failures.append(("parsing raised %r" % ex, {"attribute_column": s, "dialect": d}))
         cmds.append(pyside.cmd_split(s, d)); exp.append(pyside.impl_split(s, d))
         tags.append(("_split_keyvals", repr((s, d))))
+
+    # supplied dialects with "leading semicolon" set (the remaining dialect key; parser.py L228-244)
+    for i in range(1500 if not ctx.thorough else 30000):
+        s = "".join(r.choice(alph) for _ in range(r.randrange(0, 14)))
+        d = dict(r.choice(ds))
+        d["leading semicolon"] = True
+        res.evaluations += 1
+        res.count("leading_semicolon_" + d["fmt"])
+        try:
+            a, dd = parser._split_keyvals(s, dialect=copy.deepcopy(d))
+            if any(not isinstance(v, list) or any(not isinstance(x, str) for x in v) for v in a._d.values()):
+                res.oracle_failures.append(("parser returned a value that is not a list of strings",
+                                            {"attribute_column": s, "dialect": d}))
+        except Exception as ex:
+            res.oracle_failures.append(("parsing raised %r" % ex, {"attribute_column": s, "dialect": d}))
+        cmds.append(pyside.cmd_split(s, d)); exp.append(pyside.impl_split(s, d))
+        tags.append(("_split_keyvals(leading semicolon)", repr((s, d))))
 
     out = ctx.model(cmds)
     if out is not None:
